@@ -352,9 +352,11 @@ func substringByRune(str string, start, length int64, hasLength bool) (string, e
 	if length < 0 {
 		return "", nil
 	}
-	end := start + length
-	if end > runeLen {
-		end = runeLen
+	// Compare against the remaining length instead of computing start+length,
+	// which overflows for a huge length and produced a negative slice bound.
+	end := runeLen
+	if length < runeLen-start {
+		end = start + length
 	}
 	return string(runes[start:end]), nil
 }
@@ -417,6 +419,11 @@ func (f *SplitFunction) Execute(ctx *FunctionContext, args []any) (any, error) {
 	return strings.Split(str, delimiter), nil
 }
 
+// maxPadLength bounds the result length of lpad/rpad. The padding is
+// materialised in memory, so an unbounded length (e.g. 1<<40 or MaxInt64) would
+// exhaust memory or panic in strings.Repeat instead of returning an error.
+const maxPadLength = 1 << 20
+
 // LpadFunction 左填充字符串
 type LpadFunction struct {
 	*BaseFunction
@@ -453,6 +460,9 @@ func (f *LpadFunction) Execute(ctx *FunctionContext, args []any) (any, error) {
 	strLen := int64(len(str))
 	if strLen >= length {
 		return str, nil
+	}
+	if length > maxPadLength {
+		return nil, fmt.Errorf("lpad: length %d exceeds the maximum of %d", length, maxPadLength)
 	}
 
 	if pad == "" {
@@ -499,6 +509,9 @@ func (f *RpadFunction) Execute(ctx *FunctionContext, args []any) (any, error) {
 	strLen := int64(len(str))
 	if strLen >= length {
 		return str, nil
+	}
+	if length > maxPadLength {
+		return nil, fmt.Errorf("rpad: length %d exceeds the maximum of %d", length, maxPadLength)
 	}
 
 	if pad == "" {
